@@ -9,3 +9,7 @@ import Verif.Properties.C06
 #print axioms C06.pipeline_removeUnused
 #print axioms C06.phases_never_create_shared_sections
 #print axioms C06.pipeline_removeUnused_multi
+#print axioms C06.removal_creates_no_dangling
+#print axioms C06.singlePass_creates_no_dangling
+#print axioms C06.removeShared_creates_no_dangling
+#print axioms C06.removeUnused_phase_creates_no_dangling
